@@ -54,6 +54,8 @@ pub fn run_threads(w: &mut dyn WorldApi, g: &mut Gen, ev: &mut Ev, iters: u64, b
             (Err(p), _, _) | (_, Err(p), _) | (_, _, Err(p)) => {
                 if p.harness() {
                     ev.inconclusive(&format!("harness error: {} at {}", p.msg, p.site()));
+                } else if ev.prop != "C14" {
+                    ev.inconclusive("worker panic (owned by C14/C20)");
                 } else {
                     ev.violation(&format!("C14/threads/panic/{}", p.sig()), format!("[{}] worker panicked: {} at {}", w.kind(), p.msg, p.site()), rj);
                 }
@@ -95,17 +97,23 @@ pub fn run_threads(w: &mut dyn WorldApi, g: &mut Gen, ev: &mut Ev, iters: u64, b
         let a = w.trav(Slot::Map(0), Trav::Iter, None).items;
         let b = w.trav(Slot::Map(1), Trav::Iter, None).items;
         let a2 = w.trav(Slot::Map(2), Trav::Iter, None).items;
+        if (a != b || a2 != b || oa.roots != ob.roots || oa.writes != ob.writes || oa2.writes != ob.writes) && ev.prop != "C14" {
+            ev.inconclusive("concurrent result differs from sequential (owned by C14)");
+            continue;
+        }
         if a != b || a2 != b || oa.roots != ob.roots || oa.writes != ob.writes || oa2.writes != ob.writes {
             ev.violation("C14/threads/concurrent-differs-from-sequential", format!("[{}] after mutating {} disjoint views on threads the map holds {:?}; the same scripts run sequentially give {:?}", w.kind(), oa.workers, a, b), rj);
             return;
         }
-        if shape_sig(&w.shape(Slot::Map(0))) != shape_sig(&w.shape(Slot::Map(1))) || w.shape(Slot::Map(0)).len() != before.len() {
+        if ev.prop == "C14" && (shape_sig(&w.shape(Slot::Map(0))) != shape_sig(&w.shape(Slot::Map(1))) || w.shape(Slot::Map(0)).len() != before.len()) {
             ev.violation("C14/threads/shape", format!("[{}] threaded mutation through views changed the tree shape", w.kind()), rj);
             return;
         }
         let (la, _) = w.len(Slot::Map(0));
+        let (la2, _) = w.len(Slot::Map(2));
+        let la = if la2 != a2.len() { la2 } else { la };
         if la != a.len() {
-            ev.violation("C14/threads/len", format!("[{}] after threaded mutation len() = {} but {} entries", w.kind(), la, a.len()), rj);
+            ev.violation(&format!("{}/threads/len", ev.prop.clone()), format!("[{}] after threaded mutation len() = {} but {} entries", w.kind(), la, a.len()), rj);
             return;
         }
         if ev.samples.len() < 2 {
